@@ -313,7 +313,15 @@ def job(ctx, i):
                       },
            'digests': [dg],
            'nontrivial_digests': [dg] if _nontrivial(case, base, plan, res)
-           else []}
+           else [],
+           'sets': {'schedules (digest of the non-identity decisions of one '
+                    'seam execution)': [
+                        core.digest([d for d in o['log'] if d[2] is not None])
+                        for o in res['outs'] if o.get('nonid')],
+                    'presentations (digest of one perturbed presentation)': [
+                        core.digest({k: v for k, v in p.items()
+                                     if k not in ('sched_seed', 'log')})
+                        for p in plan['execs']]}}
     if i < 2:
         out['sample'] = {'run': i, 'run_seed': seed, 'case': case,
                          'text': core.formula_text(case['f']),
